@@ -42,7 +42,7 @@ Spec == Init /\ [][Next]_vars
 
 \* properties of the documented conversion itself
 \* Projection: erasing the events of documented tokens leaves the other characters unchanged and in order
-IsPlain(sym) == sym \in {"x", "A", "B", "M", "p", "1", "sp", ".", "G", "=", ">", "<"}
+IsPlain(sym) == sym \in {"x", "A", "B", "M", "p", "1", "sp", ".", "G", "E", "=", ">", "<"}
 PlainCharsOf(s) == LET F[j \in 0..Len(s)] == IF j = 0 THEN <<>> ELSE F[j - 1] \o (IF IsPlain(s[j]) THEN Piece(s[j]) ELSE <<>>) IN F[Len(s)]
 OffIsIdentity == (phase = "done" /\ ~conv /\ \A j \in 1..Len(inp) : inp[j] \notin {"bs", "nl", "T", "F", "K"}) =>
                     exp = Chars(LET F[j \in 0..Len(inp)] == IF j = 0 THEN <<>> ELSE F[j - 1] \o Piece(inp[j]) IN F[Len(inp)])
